@@ -105,6 +105,16 @@ def run(ctx):
             ctx.fail("history", c, f"norm**2 = {float(ni*ni)!r} but sum of squares is {float(n2)!r}")
         if (m[0] != str(ro["dmin"]) or len(m[2]) != len(ro["coefs"])) and any(v != 0 for v in dm.values()):
             ctx.bucket("representation differs from the model's (diagnostic only)")
+    # ---- aliasing: results are fresh objects; mutating a result (round_zeros) leaves the operands alone
+    if ctx.replay is None or ctx.replay.get("site") == "alias":
+        al = [c for c in cases if not c["malformed"] and c["e"][0] != "lit"][: (250 if quick else 3000)]
+        if ctx.replay is not None:
+            al = [ctx.replay["case"]]
+        res = run_impl([{"fn": "palias", "e": exprs.p_json(c["e"])} for c in al])
+        for c, r in zip(al, res):
+            ctx.count(["alias", c["e"]], nontrivial=True, bucket="alias/" + c["e"][0])
+            if "ok" in r and r["ok"]["changed"]:
+                ctx.fail("alias", c, "mutating the result of the history in place (round_zeros) changed operand literal(s) %s: the result aliases an operand" % r["ok"]["changed"])
     # ---- in-Coq re-evaluation of a slice (extraction cross-check + instance obligations)
     sl = [i for i, c in enumerate(cases) if exprs.nops(c["e"]) <= 7][: (30 if quick else 120)]
     terms = []
